@@ -54,6 +54,7 @@ Inductive stage_code :=
 | SUnfold (seed : Z) (f : fcode) (fl : failcode) (try : bool)
 | SEmit (freq : N) (f : fcode) (fl : failcode) (try : bool)
 | SThrottle (ops : nat) (interval : N)
+| SSeq (xs : list Z)
 | SFork (st : stage_code) (n : nat) (gate : bool).
 
 (* channels a stage closes *)
@@ -84,6 +85,7 @@ Definition cfg_of (st : stage_code) (icaps ocaps : list nat) : cfg :=
   | SUnfold seed f fl try => gen_stage (plan_unfold (fres f fl) try) seed [0%nat; 1%nat] ocaps
   | SEmit freq f fl try => gen_stage (plan_emit freq (fres f fl) try) 0 [0%nat; 1%nat] ocaps
   | SThrottle ops d => throttle_stage ops d icaps ocaps
+  | SSeq xs => gen_stage (plan_seq xs) 0 [0%nat] ocaps
   | SFork st' n gate => fork_stage n gate (seq_plan st') (closes_of st') icaps ocaps
   | _ => seq_stage (seq_plan st) no_eof always 0 (closes_of st) icaps ocaps
   end.
@@ -116,5 +118,6 @@ Definition image (st : stage_code) (k : nat) (xs : list Z) : list Z :=
   | SFold m, 0%nat => [fold_left (mon_combine m) xs (mon_empty m)]
   | SJoin _, 0%nat => xs
   | SThrottle _ _, 0%nat => xs
+  | SSeq ys, 0%nat => ys
   | _, _ => []
   end.
